@@ -284,18 +284,6 @@ def run_shard(spec, ctx):
             return [q[0], q[2], q[1]]  # swap operands
         return [q[0], perturb(draw, q[1], mode), perturb(draw, q[2], mode)]
 
-    def slots_of(q):
-        out = []
-        for leaf in qast.leaves(q):
-            attr, path = leaf[1], leaf[2]
-            if leaf[3][0] == "noop":
-                continue
-            if attr == "time":
-                out.append("time")
-            elif attr == "meas":
-                out.append("meas")
-        return tuple(dict.fromkeys(out))
-
     pool_pts = None
 
     def check(case):
@@ -304,8 +292,6 @@ def run_shard(spec, ctx):
         a, b = qast.build(q), qast.build(q2)
         # pool keys differ from the universe's, so behaviour is compared on pool points built from the same strategies
         if pool_pts is None:
-            import hypothesis
-
             pool_pts = []
             for t in gen.TIMES[:4]:
                 for m in ("m1", "a,b"):
